@@ -493,7 +493,15 @@ def cq_universe(eff: List[dict]) -> str:
 
 def cq_request(u: dict, k: int, req: dict) -> str:
     from lib.vlib import cq_list, cq_str
-    api = [] if req["api"] is None else [FW_ID.get(x, 9) for x in (req["api"].get("names") or req["api"].get("classes") or [])]
+    # API entries by KIND: a str selects by class name, a class object by identity.  In this family class names are unique and a
+    # class is numbered by its name (cname = identity function), so the two kinds select the same classes here; same-named
+    # twins are the subject of the third family (harness/c10_twin.py)
+    if req["api"] is None:
+        api = []
+    elif "names" in req["api"]:
+        api = [f"AName {FW_ID.get(x, 9)}%nat" for x in req["api"]["names"]]
+    else:
+        api = [f"AClass {FW_ID.get(x, 9)}%nat" for x in req["api"]["classes"]]
     col = "None" if req["col"] is None else f"(Some ({nl(req['col']['en'])}, {nl(req['col']['dis'])}))"
     fdom = "None" if not req["fdom"] else f"(Some {cq_str(req['fdom'])})"
     ffw = "None" if not req["ffw"] else f"(Some {FW_ID.get(req['ffw'], 9)}%nat)"
@@ -501,7 +509,7 @@ def cq_request(u: dict, k: int, req: dict) -> str:
         links = "None"
     else:
         links = "(Some " + cq_list(f"({cq_list(cq_str(s) for s in l[0])}, {cq_list(cq_str(s) for s in l[1])})" for l in req["links"]) + ")"
-    return (f"{{| api := {nl(api)}; collector := {col}; fname := {cq_str(fname_of(u, k, req['name']))}; fdom := {fdom}; "
+    return (f"{{| api := {cq_list(api)}; collector := {col}; fname := {cq_str(fname_of(u, k, req['name']))}; fdom := {fdom}; "
             f"ffw := {ffw}; links := {links} |}}")
 
 
@@ -515,7 +523,7 @@ def cq_obs(o: dict) -> str:
 
 def case_term(u: dict, c: dict) -> str:
     eff = effective(u, c["k"])
-    env = f"{{| existing := {nl(c['env']['existing'])}; available := {nl(c['env']['available'])} |}}"
+    env = f"{{| existing := {nl(c['env']['existing'])}; available := {nl(c['env']['available'])}; cname := fun x => x |}}"
     return f"(({env}, {cq_universe(eff)}, {cq_request(u, c['k'], u['requests'][c['ri']])}), {cq_obs(c['obs'])})"
 
 
@@ -732,6 +740,10 @@ def run(rep: Any, tier: str, seed: int) -> None:
     gc.freeze()
     found = c10_hist.run(rep, tier, seed) or found
     gc.unfreeze()
+    # ---- third family: same-named compute-framework classes; API entries by name / by class object (harness/c10_twin.py)
+    from harness import c10_twin
+    gc.collect()
+    found = c10_twin.run(rep, tier, seed) or found
     if not pr.ok and not found:
         rep.finding("proof-broken", "Props/C10.v no longer checks",
                     {"failed_files": pr.failed_files, "forbidden": pr.forbidden, "log_tail": pr.log[-3000:]}, found_input=False)
@@ -743,6 +755,10 @@ def replay(path: str) -> int:
     if r.get("kind") in ("hist", "hist-dep"):
         from harness import c10_hist
         c10_hist.replay(r)
+        return 0
+    if r.get("kind") in ("twin", "twin-order"):
+        from harness import c10_twin
+        c10_twin.replay(r)
         return 0
     u = r.get("universe")
     if not u:
